@@ -121,6 +121,10 @@ func childMain(r *mon.Run, args []string) {
 		entryAll = true
 		nt := judgeTree(r, st, sc.Tree, "sys")
 		entryAll = false
+		if strings.HasPrefix(sc.Mode, "precompile-") {
+			r.Count("pre_"+sc.Kind+"_"+strings.TrimPrefix(sc.Mode, "precompile-"), 1)
+			r.Distinct("precompile_frames", []byte(sc.Kind+sc.Mode+sc.Action))
+		}
 		if nt {
 			r.Distinct("triples_nontrivial", []byte(sc.Kind+"/"+sc.Mode+"/"+sc.Action))
 			r.Distinct("actions_nontrivial", []byte(sc.Action))
@@ -205,6 +209,11 @@ func main() {
 		"scratch_start_observations", "scratch_starts_after_dirty_tx", "scratch_end_transient_nonzero", "scratch_end_accesslist_addr",
 		"scratch_end_accesslist_slot", "scratch_end_logs", "scratch_tload_results_checked", "scratch_receipts_checked", "scratch_receipt_logs_seen",
 		"scratch_tx_executor", "scratch_tx_direct", "legacy013_receipts_checked", "legacy013_receipt_logs_seen")
+	for _, k := range []string{kCALL, kCALLCODE, kDELEGATE, kSTATIC} {
+		for _, m := range []string{"accepted", "badinput", "lowgas"} {
+			must = append(must, "pre_"+k+"_"+m)
+		}
+	}
 	r.Finish(mon.Coverage{
 		Evaluations:        r.Get("twin_pairs") + r.Get("scratch_sequences"),
 		DistinctNontrivial: int64(r.DistinctCount("twin_nontrivial") + r.DistinctCount("scratch_nontrivial")),
